@@ -82,6 +82,9 @@ Nm  == INSTANCE Named           \* C12
 Ad  == INSTANCE Adapt           \* C14
 Hc  == INSTANCE Hexcone WITH D <- 8               \* C15 (exact hexcone model)
 Ca  == INSTANCE Cam16           \* C16
+Cr  == INSTANCE Cam16Ref        \* C16: the published forward model (viewing conditions -> attributes), real powers by series
+Ok  == INSTANCE OkColour        \* C02: Ottosson's Okhsv / Okhsl procedures, transcribed
+Hs  == INSTANCE HsluvRef        \* C02: the HSLuv reference (gamut lines, maximum chroma), transcribed
 Sd  == INSTANCE Simd            \* C17
 Rn  == INSTANCE Random WITH last <- sret         \* C19
 
@@ -100,6 +103,12 @@ C04 == C!CastInv
 C01(x, c) == Gr!Routable(x, c)
 (* C02: bits of agreement of a recorded conversion with the published definition (TraceMath) *)
 C02Lab(xyz, lab) == Cm!LabBits(xyz, lab)
+(* C02, procedures: a cylinder colour and an Oklab colour agree with the published procedure under either seed selection *)
+C02Okhsv(hsv, lab) == Ok!OkhsvBits(hsv, lab)
+C02Okhsl(hsl, lab) == Ok!OkhslBits(hsl, lab)
+C02Hsluv(lchuv, hsluv) == Hs!HsluvBits(lchuv, hsluv)
+(* C16, forward model: bits of agreement of the six attributes of a recorded Cam16::from_xyz with the published equations *)
+C16Forward(e) == Cr!RefMin(Cr!RefBits(e))
 (* C03: admissible answers of is_within_bounds and clamp (TraceBounds) *)
 C03(node, t, c, lo, hi, sb, flag, out) == Bd!WithinFlagOk(node, t, c, lo, hi, sb, flag) /\ Bd!ClampOk(node, t, c, lo, hi, sb, out)
 (* C15: in-bounds hexcone colours map into the unit cube (MC_Hexcone); Ok* and HSLuv by TraceGamut *)
